@@ -99,10 +99,11 @@ def ident_pool(c):
 
 
 def uri_pool(c):
-    pool = {"", "zz", "u", "http://nope", " ", " zz ", "zz\n"}
+    pool = {"", "zz", "u", "http://nope", " ", " zz ", "zz\n", "nope%2Fx", "100%", "%d", "//[", "http://[x"}
     for r in c.records:
         for u in [r.uri_prefix] + list(r.uri_prefix_synonyms):
-            pool.update({u, u + "1", u + "x/y", u[:-1], u[:-1] + "?", u.upper() + "1", u + c.delimiter + "1", " " + u + "1", u + "1 "})
+            pool.update({u, u + "1", u + "x/y", u[:-1], u[:-1] + "?", u.upper() + "1", u + c.delimiter + "1", " " + u + "1", u + "1 ",
+                         u + "x" + u + "1", u + u, u + "100%", u + "%s"})
     return sorted(pool)
 
 
@@ -110,9 +111,10 @@ def curie_pool(c):
     d = c.delimiter
     pool = {"", "nodelim", d, d + "x", "zz" + d + "1", " ", " zz" + d + "1 ", "zz" + d + "1\n"}
     for p in prefix_pool(c):
-        for i in ["", "1", "x" + d + "y"]:
+        for i in ["", "1", "x" + d + "y", d, d + "1", d[:1] + "1"]:
             pool.add(p + d + i)
         pool.add(p)
+    pool.update({"zz" + d + "%s", "%" + d + "1"})
     return sorted(pool)
 
 
